@@ -180,6 +180,11 @@ func Seeds() []string {
 		add(Obj("FeatureCollection", `"features":`+list([]string{f1, f2}[:n])))
 	}
 	add(Obj("FeatureCollection", `"features":`+list([]string{f1, Obj("FeatureCollection", `"features":`+list([]string{f2}))}), members[1]))
+	// a Feature without properties whose foreign member has a nested "properties" key; escaped key spellings
+	add(Obj("Feature", `"geometry":`+pt, `"id":7,"schema":{"properties":{"name":"string"}}`))
+	add(Obj("Feature", `"geometry":`+pt, `"propert\u0069es":{"a":1}`))
+	add(Obj("Feature", `"geometry":`+pt, `"x":"\"properties\":","y":[{"properties":null}]`))
+	add(`{"\u0074ype":"Point","coordinates":[1,2]}`)
 	// duplicate and escaped keys
 	add(`{"type":"LineString","type":"Point","coordinates":[[0,0],[1,1]],"coordinates":[3,4]}`)
 	add(`{"type":"Point","coordinates":[1,2],"a":1,"a":2}`)
